@@ -444,7 +444,14 @@ PrettyDec(d, sep) ==
 IntRes(r) == IF IsIntRep(r) THEN MkDec(IntToDec(r), TRUE) ELSE IF IsSig(r) THEN SigToExc(r) ELSE r
 
 \* Decimal(str(x)) of a Decimal keeps sign/digits/exponent
-BI_int(v) == LET r == PyInt(v) IN IF IsIntRep(r) THEN MkDec(IntToDec(r), TRUE) ELSE r
+\* Normative (property C04): a numeric builtin never returns more significant digits than the larger of 28 and
+\* one more than its widest numeric argument; a conversion whose integer value would be longer is an arithmetic
+\* error.  The shipped code goes through Python int (deviation IntViaPyInt: int(1E+100) has 101 digits).
+ArgDigits(v) == CASE v.t = "dec" -> Len(v.digs) [] v.t \in {"int", "bool"} -> Len(AsIntRep(v).digs) [] v.t = "float" -> Len(v.dec.digs) [] OTHER -> 0
+DigitLimit(v) == IF ArgDigits(v) + 1 > Prec THEN ArgDigits(v) + 1 ELSE Prec
+Bounded(v, res) == IF IsVal(res) /\ res.t = "dec" /\ Len(res.digs) > DigitLimit(v) /\ ~Dev("IntViaPyInt")
+                   THEN OtherErr("?") ELSE res
+BI_int(v) == LET r == PyInt(v) IN IF IsIntRep(r) THEN Bounded(v, MkDec(IntToDec(r), TRUE)) ELSE r
 
 BI_round(v, nd) ==
     IF nd.t = "none" THEN
@@ -638,9 +645,9 @@ CallAtomic(h, name, args) ==
              ELSE IF Len(sep.s) = 0 THEN R(h, OtherErr("ValueError"))
              ELSE LET parts == SplitOn(a1.s, sep.s, IF ms.sign = 1 THEN -1 ELSE BoundVal(ms), 1)
                       al == Alloc(h, NewList([i \in 1..Len(parts) |-> Str(parts[i])])) IN R(al.h, ListRef(al.a))
-    [] name = "round" -> IF n = 0 \/ n > 2 THEN R(h, ArityErr) ELSE R(h, BI_round(a1, a2))
-    [] name = "floor" -> IF n # 1 THEN R(h, ArityErr) ELSE R(h, BI_floorceil("floor", a1))
-    [] name = "ceil" -> IF n # 1 THEN R(h, ArityErr) ELSE R(h, BI_floorceil("ceil", a1))
+    [] name = "round" -> IF n = 0 \/ n > 2 THEN R(h, ArityErr) ELSE R(h, Bounded(a1, BI_round(a1, a2)))
+    [] name = "floor" -> IF n # 1 THEN R(h, ArityErr) ELSE R(h, Bounded(a1, BI_floorceil("floor", a1)))
+    [] name = "ceil" -> IF n # 1 THEN R(h, ArityErr) ELSE R(h, Bounded(a1, BI_floorceil("ceil", a1)))
     [] name = "abs" -> IF n # 1 THEN R(h, ArityErr) ELSE R(h, BI_abs(a1))
     [] name = "min" -> R(h, BI_minmax(h, FALSE, args))
     [] name = "max" -> R(h, BI_minmax(h, TRUE, args))
